@@ -33,7 +33,7 @@ ClauseProp ==
   [ size_ok        |-> {"C04"},
     size_exact     |-> {"C04"},
     arg_unchanged  |-> {"C16"},
-    enc_ok         |-> {"C04", "C02"},
+    enc_ok         |-> {"C04", "C02", "C01"},
     enc_n          |-> {"C04"},
     enc_bytes      |-> {"C02"},
     enc_tail       |-> {"C16"},
